@@ -10,7 +10,11 @@ CONFIG = dict(
                "table for all CRUD sequences; in-use objects rejected.  The model is tied to the real code by running "
                "PolicyTable / apply_import / apply_export and the model on the same generated cases (routes decoded by the real "
                "wire decoder) and diffing result codes, listings and every probe result, with the reference checker as oracle on "
-               "the real observations.",
+               "the real observations.  The holders outside PolicyTable (TableManager.import_policy/export_policy and every "
+               "peer's export override) are covered the same way: a model of the daemon wrappers on top of the table model, the "
+               "invariant extended to them (published copies = the table's assignments, per-peer policies = the table's objects) "
+               "for all call sequences, the daemon-level master theorem, and a correspondence stream that drives a real Global + "
+               "TableManager + GrpcService in-process and re-evaluates every probe through every holder after every call.",
     level_note="Trusted: Lean kernel; axioms propext/Classical.choice/Quot.sound (decide +kernel for closed examples, no "
                "native_decide); the hand-written model (checked only by the correspondence stream); harness glue (case decoding, "
                "UPDATE framing of probe attributes, RPKI table construction, listing dump).  Uninterpreted in every theorem: the "
@@ -33,9 +37,13 @@ CONFIG = dict(
         "Rbgp.Policy.Props.crud_ref_closed",
         "Rbgp.Policy.Props.in_use_not_deleted",
         "Rbgp.Policy.Props.referenced_unchanged",
+        "Rbgp.Policy.Props.holders_ref_closed",
+        "Rbgp.Policy.Props.eval_eq_reference_daemon",
+        "Rbgp.Policy.Props.holder_untouched",
+        "Rbgp.Policy.Props.holder_policy_unchanged",
         "Rbgp.Policy.Props.C14_full_refuted",
     ],
-    harness=dict(kind="pt", bin="c14"),
+    harness=dict(kind="daemon", test="event::verif_event::c14::verif_main"),
     profiles=["debug"],
     n_quick=2400, n_thorough=120000, shards=12,
     nontrivial_re=r"\(r (accept|reject|pass) \(|\(r reject|\(err inuse\)|panic",
@@ -48,12 +56,19 @@ CONFIG = dict(
          "MED +-i64 extremes, prepend 0..300 incl. last-as, community add/remove/replace, next hop, local-pref, origin); "
          "policies; import/export assignments; then 2-8 random calls aimed at the same small name space (in-use deletes, "
          "merges, dangling names).  After EVERY call the listing is dumped and all probes are re-evaluated under both "
-         "assignments.  non-trivial = some probe was rewritten or rejected, or an in-use call was refused; distinct = distinct case line",
+         "assignments.  Every third case is daemon-level: initial peers, the same calls through the daemon entry points plus "
+         "per-peer add/delete/set assignment, add/delete peer (with and without export policy) and SetPolicies reloads; after "
+         "every call the listing and, for the published import, the published export and every peer override, the held "
+         "assignment and all probe results.  non-trivial = some probe was rewritten or rejected, or an in-use call was refused; distinct = distinct case line",
     expect_tokens=["(r reject", "(r accept (", "(r pass", "(err inuse)", "(err notfound)", "(err invalid)", "(imp none)",
                    "set prefix", "set neighbor", "set aspath", "set comm", "set ext", "set large", "(some (", "cset aspath as1 all",
                    "invert", "(prep ", "(med mod", "(nh ", "(a 2 80 ", "(a 4 128 (v 4294967295))", "(a 4 128 (v 0))",
-                   "(a 16 192", "(a 32 192"],
-    trusted_base=["model lean/Rbgp/Policy/Model.lean of table/src/policy.rs + AsPathIter/as_path_length/as_path_prepend[_confed] of packet/src/bgp.rs",
+                   "(a 16 192", "(a 32 192", "(dstep", "(hexp ((asg", "(himp ((asg", "(asg @4:", "(asg @6:", "(err exists)"],
+    trusted_base=["model lean/Rbgp/Policy/DModel.lean of Global::{add_policy, delete_policy, add_policy_assignment, delete_policy_assignment, "
+                  "add_peer} (daemon/src/event/mod.rs) and set_policy_assignment / set_policies / delete_peer (daemon/src/event/grpc.rs)",
+                  "harness/daemon/c14.rs (+ harness/common/c14_table.rs shared with the pt binary): real Global, TableManager and "
+                  "GrpcService built in-process, API messages for assignments and SetPolicies built by the harness",
+                  "model lean/Rbgp/Policy/Model.lean of table/src/policy.rs + AsPathIter/as_path_length/as_path_prepend[_confed] of packet/src/bgp.rs",
                   "harness/pt/src/bin/c14.rs: builds an UPDATE from the declared attributes and takes the attribute vector the real "
                   "decoder returns (must equal the declaration, else bad-case); constructs an RpkiTable that yields the declared "
                   "validation state (checked with RpkiTable::validate); dumps the table through iter_defined_sets/statements/"
@@ -61,8 +76,12 @@ CONFIG = dict(
                   "RegexEnv (regex crate, ext_community_to_string) is an uninterpreted parameter of every theorem; the driver runs "
                   "with a small engine (literals . \\d * + ^ $) from which the generator draws its patterns"],
     modelled_not_verified=[
-        "daemon-side holders of policy objects (per-peer export policy override PeerState.export_policy, the copies published in "
-        "TableManager.import_policy/export_policy, Global::{add,delete}_policy[_assignment], set_policies): not modelled in this version",
+        "daemon level: the set / statement gRPC handlers are entered below their message conversion (global.ptable is called "
+        "directly, as they do); add/delete policy, add/delete assignment and add_peer through the real Global wrappers; "
+        "SetPolicyAssignment, SetPolicies and DeletePeer through the real GrpcService handlers with messages built by the "
+        "harness (SetPolicies statements restricted to set conditions, local-pref/MED equality, local-pref/MED actions); "
+        "apply_config / load_policy_from_config, peer groups and dynamic peers are not exercised; the lock-free readers of "
+        "the ArcSwap holders (peer tasks) are not modelled — calls are sequential",
         "free-form AS-path regex members: the reference consults them, the code does not (open finding F14-aspath-regex-ignored); "
         "excluded from the master theorem by the explicit hypothesis Op.noAsRegex",
         "well-known community names in parse_community (to_lowercase + table lookup): correspondence only (hypothesis Op.noWellKnown)",
@@ -191,7 +210,7 @@ def attr(code, flags, payload, val=None):
 
 def gen_attrs(r):
     segs = gen_path(r)
-    items = [attr(1, 64, None, r.pick([0, 1, 2])), attr(2, 64 | (0x10 if r.chance(1, 12) else 0), enc_path(segs))]
+    items = [attr(1, 64, None, r.pick([0, 1, 2])), attr(2, 64 | (0x10 if r.chance(1, 12) and all(a for _, a in segs) else 0), enc_path(segs))]
     if r.chance(1, 2):
         items.append(attr(4, 128, None, r.pick([0, 5, 100, 4294967295, 4294967290])))
     if r.chance(1, 2):
@@ -424,6 +443,113 @@ def gen_case(r, tier):
     return "(case (probes %s) (ops %s))" % (" ".join(probes), " ".join(ops))
 
 
+# ---------------------------------------------------------------- daemon-level cases (holders outside PolicyTable)
+API_COND_ORDER = ["prefix", "neighbor", "aspath", "comm", "ext", "large"]
+
+
+def gen_api_stmt_body(r):
+    """statement expressible in an api::Statement as the harness builds it (canonical condition order)"""
+    conds = []
+    for kind in API_COND_ORDER:
+        if r.chance(1, 4):
+            o = r.pick(["any", "invert"]) if kind in ("prefix", "neighbor") else r.pick(["any", "all", "invert"])
+            if kind in ("prefix", "neighbor") and r.chance(1, 12):
+                o = "all"
+            conds.append("(cset %s %s %s)" % (kind, r.pick(SET_NAMES[kind]) if r.chance(11, 12) else "nosuch", o))
+    if r.chance(1, 5):
+        conds.append("(lpeq %d)" % r.pick([0, 100, 200]))
+    if r.chance(1, 5):
+        conds.append("(medeq %d)" % r.pick([0, 5, 100]))
+    acts = []
+    if r.chance(1, 2):
+        acts.append("(lp %d)" % r.pick([0, 100, 200, 300]))
+    if r.chance(1, 2):
+        acts.append("(med %s %d)" % (r.pick(["mod", "replace"]), r.pick([0, 10, -10, 5, 4294967295])))
+    return "(%s) %s (%s)" % (" ".join(conds), r.pick(["none", "accept", "reject", "reject"]), " ".join(acts))
+
+
+def gen_set_policies(r):
+    ops = []
+    for kind in KINDS:
+        for name in SET_NAMES[kind]:
+            if r.chance(2, 3):
+                ops.append("(set-add %s %s %s)" % (kind, name, gen_elems(r, kind, n=r.pick([1, 1, 2, 3, 0] if r.chance(1, 6) else [1, 2, 3]))))
+    ns = 1 + r.below(3)
+    names = STMT_NAMES[:ns]
+    for n in names:
+        ops.append("(stmt-add %s %s)" % (n, gen_api_stmt_body(r)))
+    used = set()
+    pols = []
+    for pn in POL_NAMES[:1 + r.below(2)]:
+        ss = [r.pick(names) for _ in range(1 + r.below(2))]
+        used.update(ss)
+        pols.append("(pol-add %s (%s))" % (pn, " ".join(ss)))
+    rest = [n for n in names if n not in used]
+    if rest:
+        pols.append("(pol-add p3 (%s))" % " ".join(rest))
+    ops += pols
+    if r.chance(3, 4):
+        ops.append("(asg-add exp global %s (%s))" % (r.pick(["accept", "reject", "pass"]), r.pick(["p1", "p1 p2", "p2", "nosuch"]) if r.chance(9, 10) else "nosuch"))
+    if r.chance(1, 2):
+        ops.append("(asg-add imp global %s (p1))" % r.pick(["accept", "reject"]))
+    return "(set-policies (%s))" % " ".join(ops)
+
+
+def holder(r, peers):
+    return "global" if r.chance(1, 2) else r.pick(peers + PEERS[:3])
+
+
+def dchurn_op(r, peers):
+    k = r.below(100)
+    if k < 30:
+        op = churn_op(r)
+        while op.startswith("(pol-") or op.startswith("(asg-"):
+            op = churn_op(r)
+        return "(tbl %s)" % op
+    if k < 40:
+        return "(pol-add %s (%s))" % (r.pick(POL_NAMES), " ".join(r.pick(STMT_NAMES + ["nosuch"]) for _ in range(r.below(3))))
+    if k < 54:
+        return "(pol-del %s %s %s (%s))" % (r.pick(POL_NAMES), r.pick(["t", "f"]), r.pick(["t", "f"]),
+                                            " ".join(r.pick(STMT_NAMES) for _ in range(r.below(3))))
+    if k < 66:
+        return "(asg-add %s %s %s (%s))" % (holder(r, peers), r.pick(["exp", "exp", "imp"]), r.pick(["accept", "reject", "pass"]),
+                                            " ".join(r.pick(POL_NAMES + ["nosuch"]) for _ in range(1 + r.below(2))))
+    if k < 76:
+        return "(asg-del %s %s %s (%s))" % (holder(r, peers), r.pick(["exp", "exp", "imp"]), r.pick(["t", "f", "f"]),
+                                            " ".join(r.pick(POL_NAMES) for _ in range(r.below(2))))
+    if k < 84:
+        return "(asg-set %s %s %s (%s))" % (holder(r, peers), r.pick(["exp", "exp", "imp"]), r.pick(["accept", "reject"]),
+                                            " ".join(r.pick(POL_NAMES) for _ in range(r.below(3))))
+    if k < 89:
+        ex = "none" if r.chance(1, 2) else "(some %s (%s))" % (r.pick(["accept", "reject", "pass"]), " ".join(r.pick(POL_NAMES) for _ in range(1 + r.below(2))))
+        return "(peer-add %s %s)" % (r.pick(PEERS), ex)
+    if k < 93:
+        return "(peer-del %s)" % r.pick(PEERS)
+    return gen_set_policies(r)
+
+
+def gen_dcase(r, tier):
+    probes = [gen_route(r) for _ in range(r.pick([2, 2, 3]))]
+    npeer = r.pick([1, 2, 2, 3])
+    peers = PEERS[:npeer]
+    ops = []
+    focus = r.pick([None, ["prefix"], ["prefix", "aspath"], ["comm", "neighbor"]])
+    for o in setup_ops(r, focus):
+        if o.startswith("(pol-add"):
+            ops.append(o)
+        elif o.startswith("(asg-add exp"):
+            ops.append("(asg-add global exp %s" % o.split(" ", 3)[3])
+        elif o.startswith("(asg-add imp"):
+            ops.append("(asg-add global imp %s" % o.split(" ", 3)[3])
+        else:
+            ops.append("(tbl %s)" % o)
+    for p in peers:
+        if r.chance(2, 3):
+            ops.append("(asg-add %s exp %s (%s))" % (p, r.pick(["accept", "reject"]), r.pick(["p1", "p2", "p2 p1", "p3"])))
+    ops += [dchurn_op(r, peers) for _ in range(3 + r.below(8))]
+    return "(dcase (probes %s) (peers %s) (dops %s))" % (" ".join(probes), " ".join(peers), " ".join(ops))
+
+
 # ---------------------------------------------------------------- malformed / adversarial stream
 def _parse(s):
     stack, cur = [], []
@@ -529,8 +655,8 @@ def mutate(r, case):
 def gen(seed, n, tier):
     r = Rng(seed * 1000003 + 14)
     out = []
-    for _ in range(n):
-        c = gen_case(r, tier)
+    for i in range(n):
+        c = gen_dcase(r, tier) if i % 3 == 2 else gen_case(r, tier)
         if r.chance(1, 8):
             try:
                 c = mutate(r, c)
